@@ -133,6 +133,124 @@ def h_message(mi: int, ai: int, nsp: int, ci: int, pos: int, where: int, li: int
     _check(out)
 
 
+# ---------------------------------------------------------------------------------------------------
+# getMessage() raising every kind of exception: KeyError ('%(missing)s' with a dict), OverflowError ('%c'),
+# TypeError/ValueError (mismatches), and whatever a hostile argument / message object raises from __str__.
+class Boom(Exception):
+    pass
+
+
+EXC_POOL = (
+    lambda: KeyError("k"), lambda: IndexError("i"), lambda: OverflowError("o"),
+    lambda: UnicodeDecodeError("utf-8", b"\xff", 0, 1, "bad"), lambda: UnicodeEncodeError("ascii", "\xe9", 0, 1, "bad"),
+    lambda: RuntimeError("r\nforged"), lambda: ZeroDivisionError(), lambda: Boom("custom\n"), lambda: StopIteration(),
+    lambda: MemoryError(), lambda: RecursionError("deep"), lambda: OSError(5, "io"), lambda: AssertionError("a"),
+    lambda: LookupError(), lambda: AttributeError("x"), lambda: NotImplementedError(),
+)
+
+
+class Hostile:
+    """str() raises the chosen exception; repr() is harmless unless `repr_raises`."""
+
+    def __init__(self, make, repr_raises=False):
+        self.make = make
+        self.repr_raises = repr_raises
+
+    def __str__(self):
+        raise self.make()
+
+    def __repr__(self):
+        if self.repr_raises:
+            raise self.make()
+        return "<Hostile>"
+
+
+MSGS2 = ("%(missing)s", "%c", "%s", "%s and %(a)s", "%d", "%s %s", "%(a)s\n%(b)s", "%*d", "%c%c", None)  # None: hostile msg
+N_ARGS2 = 10
+
+
+def _args2(ai, make, rr):
+    if ai == 0:
+        return ({"a": 1},)
+    if ai == 1:
+        return (0x110000,)
+    if ai == 2:
+        return (-1,)
+    if ai == 3:
+        return (Hostile(make, rr),)
+    if ai == 4:
+        return (Hostile(make, rr), "x")
+    if ai == 5:
+        return ()
+    if ai == 6:
+        return ({"a": Hostile(make, rr), "b": "x"},)
+    if ai == 7:
+        return ("x",)
+    if ai == 8:
+        return (1 << 70, 65)
+    return ("\ud800", 0x10ffff)
+
+
+def pre_gm(mi: int, ai: int, xi: int, rr: bool, li: int) -> bool:
+    if not (0 <= mi < len(MSGS2) and 0 <= ai < N_ARGS2 and 0 <= xi < len(EXC_POOL) and 0 <= li <= 1):
+        return False
+    hostile = ai in (3, 4, 6) or mi == len(MSGS2) - 1
+    if not hostile and (xi != 0 or rr):
+        return False
+    if rr and not P.HOSTILE_REPR:
+        return False
+    return in_shard(mi)
+
+
+@harness(
+    pre=pre_gm,
+    quick=dict(HOSTILE_REPR=0, timeout=100),
+    thorough=dict(HOSTILE_REPR=0, timeout=300),
+    nshards=dict(quick=5, thorough=5),
+    reach=["getmessage_KeyError", "getmessage_OverflowError", "getmessage_IndexError", "getmessage_UnicodeError",
+           "getmessage_TypeError", "getmessage_custom", "getmessage_ok"],
+    units=["log.LogFormatter.format", "log._safe_unicode"],
+    stubs=["logging.time pinned while the LogRecord is built",
+           "message template from MSGS2 (or a hostile message object), argument tuple from 10 shapes, the exception "
+           "class a hostile __str__ raises from a pool of 16 classes - all by symbolic index",
+           "HOSTILE_REPR=0: objects whose __repr__ ALSO raises are outside the pools: on the current tree the "
+           "fallback f\"Bad message ({e!r}): {record.__dict__!r}\" then raises out of format() (reported finding; "
+           "set HOSTILE_REPR=1 once the fallback is guarded)"],
+    outside=["BaseException subclasses that are not Exception (KeyboardInterrupt, SystemExit)",
+             "objects whose __repr__ raises (see stubs)"],
+)
+def h_getmessage_raises(mi: int, ai: int, xi: int, rr: bool, li: int):
+    make = EXC_POOL[xi]
+    msg = MSGS2[mi]
+    if msg is None:
+        msg = Hostile(make, rr)
+    args = _args2(ai, make, rr)
+    record = _record(logging.INFO if li == 0 else logging.ERROR, msg, args, None)
+    try:
+        record.getMessage()
+        raised = None
+    except Exception as e:
+        raised = e
+    if raised is None:
+        reached("getmessage_ok")
+    elif isinstance(raised, KeyError):
+        reached("getmessage_KeyError")
+    elif isinstance(raised, OverflowError):
+        reached("getmessage_OverflowError")
+    elif isinstance(raised, IndexError):
+        reached("getmessage_IndexError")
+    elif isinstance(raised, UnicodeError):
+        reached("getmessage_UnicodeError")
+    elif isinstance(raised, TypeError):
+        reached("getmessage_TypeError")
+    elif isinstance(raised, Boom):
+        reached("getmessage_custom")
+    out = _format(record)
+    _check(out)
+    if raised is not None:
+        assert "Bad message" in out, "getMessage() raised %r but the record was formatted as %r" % (raised, out)
+
+
 def pre_exc(mi: int, ei: int, nsp: int, ci: int, cj: int, pos: int, pre_text: int) -> bool:
     if not (0 <= mi <= 3 and 0 <= ei < len(EXC_TEXT) and 0 <= nsp <= P.NX and 0 <= ci < P.NC
             and 0 <= cj < P.NC and 0 <= pos <= 2 and 0 <= pre_text <= 2):
